@@ -1,10 +1,11 @@
 // Command c07 traces the sorts of /repo/sort and /repo/radixsort.
 //
-//	header:  C | I | U | S
+//	header:  C | Cd | C1 | Cr | Cb | I | U | S     (C*: comparison sorts, the suffix selects the comparator)
 //	ops:     e <element> -> -                    (appends one element to the input of the case)
 //	         <Algorithm> [args] -> <output>      (runs on a fresh copy of the elements listed so far)
 //
-// C: elements "e <key> <tag>", comparator 3*(k1-k2) (ignores the tag), output "k:t,k:t,..." or "-".
+// C*: elements "e <key> <tag>", the comparator ignores the tag: C 3*(k1-k2), Cd k1-k2, C1 -1/0/+1,
+// Cr k2-k1 (reversed), Cb sign*(1+(k1-k2)^2); output "k:t,k:t,..." or "-".
 //
 //	Selection Insertion Shell Merge MergeRec Quick3Way Heap      the public functions
 //	VQuick                      quick without the shuffle (hook)
@@ -42,7 +43,39 @@ import (
 
 type kt struct{ k, t int }
 
-func cmpKT(a, b kt) int { return 3 * (a.k - b.k) }
+// comparators (generic.CompareFunc: negative / zero / positive; the sorts may only use the sign)
+//
+//	C   3*(k1-k2)      Cd  k1-k2      C1  -1/0/+1      Cr  k2-k1 (reversed order)      Cb  sign * (1 + |k1-k2|^2)
+func cmpFor(head string) func(a, b kt) int {
+	switch head {
+	case "Cd":
+		return func(a, b kt) int { return a.k - b.k }
+	case "C1":
+		return func(a, b kt) int {
+			switch {
+			case a.k < b.k:
+				return -1
+			case a.k > b.k:
+				return 1
+			}
+			return 0
+		}
+	case "Cr":
+		return func(a, b kt) int { return b.k - a.k }
+	case "Cb":
+		return func(a, b kt) int {
+			d := a.k - b.k
+			switch {
+			case d < 0:
+				return -(1 + d*d)
+			case d > 0:
+				return 1 + d*d
+			}
+			return 0
+		}
+	}
+	return func(a, b kt) int { return 3 * (a.k - b.k) }
+}
 
 // scripted is a rand.Source whose i-th Int63 makes Intn(m) return d[i] mod m (d[i] < 2^20).
 type scripted struct {
@@ -162,7 +195,7 @@ func (st *state) exec(w *tr.W, op string) {
 	}
 	if f[0] == "e" {
 		switch st.head {
-		case "C":
+		case "C", "Cd", "C1", "Cr", "Cb":
 			st.c = append(st.c, kt{ai(1), ai(2)})
 		case "I", "U":
 			v, _ := strconv.ParseUint(as(1), 16, 64)
@@ -181,7 +214,8 @@ func (st *state) exec(w *tr.W, op string) {
 	}
 	var res string
 	switch st.head {
-	case "C":
+	case "C", "Cd", "C1", "Cr", "Cb":
+		cmpKT := cmpFor(st.head)
 		a := append([]kt(nil), st.c...)
 		sorter := func(g func([]kt)) string { return guard(func() string { g(a); return showKT(a) }) }
 		switch f[0] {
@@ -314,7 +348,11 @@ func draws(r *rng.R, n int) string {
 }
 
 // caseC builds the full battery for one tagged key slice.
-func caseC(w *tr.W, r *rng.R, keys []int, full bool) {
+func caseC(w *tr.W, r *rng.R, keys []int, full bool) { caseCh(w, r, "C", keys, full) }
+
+var cmpHeads = []string{"C", "Cd", "C1", "Cr", "Cb"}
+
+func caseCh(w *tr.W, r *rng.R, head string, keys []int, full bool) {
 	n := len(keys)
 	var ops []string
 	for i, k := range keys {
@@ -337,13 +375,13 @@ func caseC(w *tr.W, r *rng.R, keys []int, full bool) {
 			ops = append(ops, fmt.Sprintf("VMerge 0 %d %d", (n-1)/2, n-1))
 		}
 	}
-	runCase(w, "C", ops)
+	runCase(w, head, ops)
 }
 
-func exhaustiveC(w *tr.W, r *rng.R, maxLen int, vals []int) {
+func exhaustiveC(w *tr.W, r *rng.R, head string, maxLen int, vals []int) {
 	var rec func(prefix []int)
 	rec = func(prefix []int) {
-		caseC(w, r, prefix, true)
+		caseCh(w, r, head, prefix, true)
 		if len(prefix) == maxLen {
 			return
 		}
@@ -450,7 +488,7 @@ func randomC(w *tr.W, r *rng.R, cases, big int) {
 				keys[i], keys[j] = keys[j], keys[i]
 			}
 		}
-		caseC(w, r, keys, false)
+		caseCh(w, r, cmpHeads[r.Intn(len(cmpHeads))], keys, false)
 	}
 }
 
@@ -593,13 +631,19 @@ func main() {
 		sv := []string{"", "a", "ab", "b", "a\x00", "\xff"}
 		fv := []string{"\x00\x00", "\x00\xff", "a\x00", "aa", "a\xff", "\xff\x00", "\xffa", "\xff\xff"}
 		if thorough {
-			exhaustiveC(w, r, 9, []int{-1, 0, 1})
+			exhaustiveC(w, r, "C", 9, []int{-1, 0, 1})
+			for _, h := range cmpHeads[1:] {
+				exhaustiveC(w, r, h, 7, []int{-1, 0, 1})
+			}
 			exhaustiveU(w, "I", 4, iv)
 			exhaustiveU(w, "U", 4, iv)
 			exhaustiveS(w, 5, sv, -1)
 			exhaustiveS(w, 4, fv, 2)
 		} else {
-			exhaustiveC(w, r, 7, []int{-1, 0, 1})
+			exhaustiveC(w, r, "C", 7, []int{-1, 0, 1})
+			for _, h := range cmpHeads[1:] {
+				exhaustiveC(w, r, h, 5, []int{-1, 0, 1})
+			}
 			exhaustiveU(w, "I", 3, iv)
 			exhaustiveU(w, "U", 3, iv[1:])
 			exhaustiveS(w, 4, sv, -1)
